@@ -666,7 +666,12 @@ func valuesCaseFlags(m *Model, rep *Report, r *Rng, seed uint64, idx int, tmp st
 		fc[p] = content
 	}
 	for i := r.Intn(2); i > 0; i-- {
-		e := simple() + "=" + Pick(r, []string{"lit,eral", "a=b", "null", "{x}"})
+		k := simple()
+		if r.Chance(35) {
+			// a list element: the literal changes that element (and what it must create to reach it), nothing else
+			k += Pick(r, []string{"[0]", "[1]", "[2]", "[1].x", "[0][1]"})
+		}
+		e := k + "=" + Pick(r, []string{"lit,eral", "a=b", "null", "{x}"})
 		opts.LiteralValues = append(opts.LiteralValues, e)
 		setLiteral = append(setLiteral, e)
 	}
